@@ -827,7 +827,6 @@ def run_shard(shard, tier):
         check_mixins(pane, res)
         return res
     from pane.convert import make_converter
-    from pane.classes import _make_subclass
     n = 0
     for idx, prog in programs(tier):
         if idx % shard['n'] != shard['i']:
@@ -842,7 +841,7 @@ def run_shard(shard, tier):
         n += 1
         if n % 200 == 0:
             make_converter.cache.clear()
-            _make_subclass.cache_clear()
+            core.clear_subscription_memo()
     if shard['i'] == 0:
         res['samples'].append({'program': [{'kind': 'generic2', 'type': 2}, {'form': 'partial_redeclare', 'action': 'add_default', 'ftype': 0, 'opt': 2}],
                                'meaning': "class L0(PaneBase, Generic[T,U]): fld_a: List[T]; fld_b: U / class L1(L0[int, V], Generic[V], rename='camel'): fld_c: int = 7 / L1[str]"})
